@@ -10,10 +10,19 @@
 //!   direct      root -> lib
 //!   two         root -> liba, libb: the same project `lib` under two requirements
 //!   path        root -> pd (path dependency) -> lib
-//!   diamond     root -> m1, m2 (path dependencies), m1 -> lib, m2 -> lib
+//!   diamond     root -> m1, m2 (path dependencies), m1 -> lib, m2 -> lib; and the three-armed
+//!               variant root -> m1, m2, m3 -> lib (arms in {2, 3}): with three arms up to three
+//!               different releases are declared under the one name `lib`, so the conflict-suffix
+//!               search (`lib`, `lib_0`, `lib_1`) is taken more than once for a name. The arms
+//!               are interchangeable, so three-armed requirement triples are enumerated as
+//!               multisets (r1 <= r2 <= r3), richest (most distinct reference picks) first
 //!   chain       root -> mid (git, two releases) -> lib
 //! A lock state "locked to r" is produced by a real history: resolve once with the requirement
 //! `=r`, save Veryl.lock, then change the declaration to the requirement under test and update.
+//!
+//! Order: the shapes are interleaved proportionally (case i of a shape with n cases has rank i/n),
+//! so a budget cut leaves the same leading fraction of every shape instead of dropping the later
+//! shapes altogether.
 //!
 //! Oracle: the reference resolver of the property text (refmodels::semver_ref): for each
 //! dependency edge the release recorded for that edge in the lock file if it still satisfies the
@@ -47,6 +56,11 @@ pub struct Case {
     /// index into RELEASES
     pub lock1: Option<usize>,
     pub lock2: Option<usize>,
+    /// third arm of the `diamond` shape (None = two arms)
+    #[serde(default)]
+    pub req3: Option<usize>,
+    #[serde(default)]
+    pub lock3: Option<usize>,
     /// `props` shape: value of the property override `P` before / after the declaration change
     #[serde(default)]
     pub prop1: Option<i64>,
@@ -60,14 +74,16 @@ impl Case {
     }
     fn text(&self) -> String {
         format!(
-            "{} releases={:?} pub_order={} req1={} req2={:?} lock1={:?} lock2={:?} prop={:?}->{:?}",
+            "{} releases={:?} pub_order={} req1={} req2={:?} req3={:?} lock1={:?} lock2={:?} lock3={:?} prop={:?}->{:?}",
             self.shape,
             self.released().iter().map(|v| v.text()).collect::<Vec<_>>(),
             if self.pub_order == 0 { "ascending" } else { "rotated" },
             REQS[self.req1],
             self.req2.map(|r| REQS[r]),
+            self.req3.map(|r| REQS[r]),
             self.lock1.map(|r| RELEASES[r]),
             self.lock2.map(|r| RELEASES[r]),
+            self.lock3.map(|r| RELEASES[r]),
             self.prop1,
             self.prop2,
         )
@@ -303,7 +319,7 @@ fn git_dep(url: &str, project: Option<&str>, req: &str) -> String {
 }
 
 /// Writes the declarations of one step. `r1`/`r2` are requirement texts.
-fn write_step(case: &Case, dir: &Path, lib_url: &str, mid_url: Option<&str>, r1: &str, r2: Option<&str>, mid_req: Option<&str>, prop: Option<i64>) -> Result<Layout, String> {
+fn write_step(case: &Case, dir: &Path, lib_url: &str, mid_url: Option<&str>, r1: &str, r2: Option<&str>, r3: Option<&str>, mid_req: Option<&str>, prop: Option<i64>) -> Result<Layout, String> {
     let root = dir.join("root");
     let w = |p: PathBuf, t: String| -> Result<(), String> {
         std::fs::create_dir_all(p.parent().unwrap()).map_err(|e| e.to_string())?;
@@ -321,9 +337,16 @@ fn write_step(case: &Case, dir: &Path, lib_url: &str, mid_url: Option<&str>, r1:
             w(dir.join("pd/Veryl.toml"), project_toml("pd", "0.1.0", &[("lib".into(), git_dep(lib_url, None, r1))]))?;
         }
         "diamond" => {
-            w(root.join("Veryl.toml"), project_toml("root", "0.1.0", &[("m1".into(), "{path = \"../m1\"}".into()), ("m2".into(), "{path = \"../m2\"}".into())]))?;
+            let mut arms = vec![("m1".to_string(), "{path = \"../m1\"}".to_string()), ("m2".to_string(), "{path = \"../m2\"}".to_string())];
+            if r3.is_some() {
+                arms.push(("m3".to_string(), "{path = \"../m3\"}".to_string()));
+            }
+            w(root.join("Veryl.toml"), project_toml("root", "0.1.0", &arms))?;
             w(dir.join("m1/Veryl.toml"), project_toml("m1", "0.1.0", &[("lib".into(), git_dep(lib_url, None, r1))]))?;
             w(dir.join("m2/Veryl.toml"), project_toml("m2", "0.1.0", &[("lib".into(), git_dep(lib_url, None, r2.unwrap()))]))?;
+            if let Some(r3) = r3 {
+                w(dir.join("m3/Veryl.toml"), project_toml("m3", "0.1.0", &[("lib".into(), git_dep(lib_url, None, r3))]))?;
+            }
         }
         "chain" => w(root.join("Veryl.toml"), project_toml("root", "0.1.0", &[("mid".into(), git_dep(mid_url.unwrap(), None, mid_req.unwrap()))]))?,
         x => return Err(format!("unknown shape {x}")),
@@ -350,6 +373,13 @@ fn expectation(case: &Case, use_locks: bool) -> Expect {
         },
         _ => {
             let v2 = resolve(&published, &Req::parse(REQS[case.req2.unwrap()]).unwrap(), lock(case.lock2));
+            if let (true, Some(r3)) = (case.shape == "diamond", case.req3) {
+                let v3 = resolve(&published, &Req::parse(REQS[r3]).unwrap(), lock(case.lock3));
+                return match (v1, v2, v3) {
+                    (Some(a), Some(b), Some(c)) => Expect::Versions(vec![("m1".into(), a.text()), ("m2".into(), b.text()), ("m3".into(), c.text())]),
+                    _ => Expect::NoMatch,
+                };
+            }
             match (v1, v2) {
                 (Some(a), Some(b)) => {
                     if case.shape == "two" {
@@ -389,7 +419,7 @@ fn observed_edges(case: &Case, t: &[LockView]) -> Vec<(String, String)> {
             }
         }
         "diamond" => {
-            for l in t.iter().filter(|l| l.name == "m1" || l.name == "m2") {
+            for l in t.iter().filter(|l| l.name == "m1" || l.name == "m2" || l.name == "m3") {
                 for (_, ver) in &l.deps {
                     v.push((l.name.clone(), ver.clone()));
                 }
@@ -425,6 +455,7 @@ fn run_case(case: &Case, shard: &Shard, dir: &Path, over: &dyn Fn() -> bool) -> 
     let _ = std::fs::remove_dir_all(dir);
     let req1 = REQS[case.req1];
     let req2 = case.req2.map(|r| REQS[r]);
+    let req3 = case.req3.map(|r| REQS[r]);
     let lock_req = |l: Option<usize>| l.map(|i| format!("={}", RELEASES[i]));
 
     // the chain's intermediate git repository: 0.1.0 pins lib to the lock state, 0.2.0 carries req1
@@ -458,7 +489,8 @@ fn run_case(case: &Case, shard: &Shard, dir: &Path, over: &dyn Fn() -> bool) -> 
     if has_lock {
         let l1 = lock_req(case.lock1).unwrap();
         let l2 = lock_req(case.lock2);
-        let lay = match write_step(case, dir, &lib_url, mid_url.as_deref(), &l1, l2.as_deref(), Some("=0.1.0"), case.prop1) {
+        let l3 = lock_req(case.lock3);
+        let lay = match write_step(case, dir, &lib_url, mid_url.as_deref(), &l1, l2.as_deref(), l3.as_deref(), Some("=0.1.0"), case.prop1) {
             Ok(x) => x,
             Err(e) => {
                 res.skipped = Some(format!("harness: {e}"));
@@ -479,7 +511,7 @@ fn run_case(case: &Case, shard: &Shard, dir: &Path, over: &dyn Fn() -> bool) -> 
         return res;
     }
     // ---- step 2: the declarations under test
-    let lay = match write_step(case, dir, &lib_url, mid_url.as_deref(), req1, req2, Some("=0.2.0"), case.prop2) {
+    let lay = match write_step(case, dir, &lib_url, mid_url.as_deref(), req1, req2, req3, Some("=0.2.0"), case.prop2) {
         Ok(x) => x,
         Err(e) => {
             res.skipped = Some(format!("harness: {e}"));
@@ -719,7 +751,7 @@ fn build_cases(thorough: bool) -> Vec<Case> {
     let mut v: Vec<Case> = vec![];
     let mut push = |shape: &str, rset: u8, pub_order: u8, req1: usize, req2: Option<usize>, lock1: Option<usize>, lock2: Option<usize>| {
         let id = v.len();
-        v.push(Case { id, shape: shape.into(), rset, pub_order, req1, req2, lock1, lock2, prop1: None, prop2: None });
+        v.push(Case { id, shape: shape.into(), rset, pub_order, req1, req2, lock1, lock2, req3: None, lock3: None, prop1: None, prop2: None });
     };
     let members = |rset: u8| -> Vec<usize> { (0..4).filter(|i| rset >> i & 1 == 1).collect() };
     // direct: everything (the full release set first, so that a budget cut keeps the richest cases)
@@ -770,7 +802,57 @@ fn build_cases(thorough: bool) -> Vec<Case> {
             }
         }
     }
-    // diamond
+    // diamond, three arms: requirement multisets, those whose reference picks are pairwise
+    // different first (three releases under one declared name), then two different, then one
+    {
+        let all: Vec<Ver> = RELEASES.iter().map(|r| Ver::parse(r).unwrap()).collect();
+        let pick = |r: usize| resolve(&all, &Req::parse(REQS[r]).unwrap(), None).map(|v| v.text());
+        let mut triples: Vec<(usize, usize, usize)> = vec![];
+        for r1 in 0..REQS.len() {
+            for r2 in r1..REQS.len() {
+                for r3 in r2..REQS.len() {
+                    triples.push((r1, r2, r3));
+                }
+            }
+        }
+        let distinct = |t: &(usize, usize, usize)| -> usize { [pick(t.0), pick(t.1), pick(t.2)].into_iter().collect::<BTreeSet<_>>().len() };
+        triples.sort_by_key(|t| std::cmp::Reverse(distinct(t)));
+        for (r1, r2, r3) in triples {
+            let mut locks: Vec<Option<(usize, usize, usize)>> = vec![None];
+            for a in 0..4 {
+                for b in 0..4 {
+                    for c in 0..4 {
+                        if !thorough && !matches!((a, b, c), (0, 3, 2) | (3, 1, 0)) {
+                            continue;
+                        }
+                        locks.push(Some((a, b, c)));
+                    }
+                }
+            }
+            for l in locks {
+                let id = v.len();
+                v.push(Case {
+                    id,
+                    shape: "diamond".into(),
+                    rset: 15,
+                    pub_order: 0,
+                    req1: r1,
+                    req2: Some(r2),
+                    req3: Some(r3),
+                    lock1: l.map(|x| x.0),
+                    lock2: l.map(|x| x.1),
+                    lock3: l.map(|x| x.2),
+                    prop1: None,
+                    prop2: None,
+                });
+            }
+        }
+    }
+    let mut push = |shape: &str, rset: u8, pub_order: u8, req1: usize, req2: Option<usize>, lock1: Option<usize>, lock2: Option<usize>| {
+        let id = v.len();
+        v.push(Case { id, shape: shape.into(), rset, pub_order, req1, req2, lock1, lock2, req3: None, lock3: None, prop1: None, prop2: None });
+    };
+    // diamond, two arms
     for r1 in 0..REQS.len() {
         for r2 in 0..REQS.len() {
             push("diamond", 15, 0, r1, Some(r2), None, None);
@@ -810,9 +892,27 @@ fn build_cases(thorough: bool) -> Vec<Case> {
         for l in members(rset) {
             for (p1, p2) in [(Some(1), Some(1)), (Some(1), Some(2)), (None, Some(1)), (Some(1), None)] {
                 let id = v.len();
-                v.push(Case { id, shape: "props".into(), rset, pub_order: 0, req1: star, req2: None, lock1: Some(l), lock2: None, prop1: p1, prop2: p2 });
+                v.push(Case { id, shape: "props".into(), rset, pub_order: 0, req1: star, req2: None, lock1: Some(l), lock2: None, req3: None, lock3: None, prop1: p1, prop2: p2 });
             }
         }
+    }
+    // proportional interleave of the shapes (see the module header); ties keep the shape order above
+    let mut len: BTreeMap<String, usize> = BTreeMap::new();
+    for c in &v {
+        *len.entry(c.shape.clone()).or_default() += 1;
+    }
+    let mut seen: BTreeMap<String, usize> = BTreeMap::new();
+    let mut keyed: Vec<(u64, Case)> = vec![];
+    for c in v {
+        let i = seen.entry(c.shape.clone()).or_default();
+        // rank i/n as a fixed-point number
+        keyed.push((((*i as u64) << 32) / len[&c.shape] as u64, c));
+        *i += 1;
+    }
+    keyed.sort_by_key(|(k, _)| *k);
+    let mut v: Vec<Case> = keyed.into_iter().map(|(_, c)| c).collect();
+    for (i, c) in v.iter_mut().enumerate() {
+        c.id = i;
     }
     v
 }
